@@ -1,11 +1,13 @@
 /-
-Facts about the shared UTF-8 prelude (`Golib.Utf8`): `decodeRune` on a non-empty byte
+Facts about the shared UTF-8 prelude (`Golib.Utf8`), in namespace `Golib.Utf8L` (so that they
+cannot clash with other builders' lemma files): `decodeRune` on a non-empty byte
 string either reports an error `(U+FFFD, 1)` or returns a scalar value whose `encodeRune`
 is exactly the bytes consumed (encode ∘ decode = id on well-formed sequences).
 -/
 import Golib.Prelude.Utf8
 
-namespace Golib.Utf8
+namespace Golib.Utf8L
+open Golib.Utf8
 
 theorem encodeRune_nat1 {m : Nat} (h : m < 0x80) : encodeRune (m : Int) = [m] := by
   unfold encodeRune
@@ -215,4 +217,4 @@ theorem encode_runes_valid (bs : List Nat) (h : valid bs = true) : encode (runes
   rw [valid_eq] at h
   exact reencode_valid_aux bs.length bs 0 (Nat.le_refl _) h
 
-end Golib.Utf8
+end Golib.Utf8L
